@@ -1,4 +1,148 @@
 import Model.Base.Proto
+import Model.Math.Sample
+import Model.Math.Exact
+import Model.Math.Nothing
+import Model.Math.Normal
+import Model.Math.Render
+import Model.Spec.MathSpec
 
-/-- stub: replaced when the property's driver is built -/
-def main : IO Unit := pure ()
+/-!
+Driver for C13. For every `case` line of the harness it prints
+* `obs`  — the MODEL's observables (Model/Math/*), floats as bit patterns (NaN and the sign of
+           zero canonicalised exactly as the harness does), rendered strings hex encoded;
+* `spec` — the verdicts of the SPECIFICATION oracle (Model/Spec/MathSpec, exact rationals) on
+           the implementation's own outputs (the `i*` fields of the case line).
+-/
+
+namespace Driver.C13
+open Proto Math
+
+def bits? (s : String) : Option F64.Bits := F64.ofHex? s
+def bitsD (l : Line) (k : String) : F64.Bits := ((l.get? k).bind bits?).getD F64.nan
+def bitsList (s : String) : List F64.Bits := if s == "-" then [] else (s.splitOn ",").filterMap bits?
+def hexStr (s : String) : String := (Bytes.ofString s).toHex
+def unhexStr (s : String) : String := match Bytes.ofHex s with
+  | some b => (String.fromUTF8? (ByteArray.mk b.toArray)).getD "?"
+  | none => "?"
+
+/-- canonical float for obs lines -/
+def canon (b : F64.Bits) : String :=
+  if F64.isNaN b then F64.toHex F64.nan else if F64.isZero b then F64.toHex F64.posZero else F64.toHex b
+
+def showList (l : List F64.Bits) : String := if l.isEmpty then "-" else ",".intercalate (l.map F64.toHex)
+
+def showSWarn : SWarning F64.Bits → String
+  | .range _ _ => "range"
+  | .needCI op n _ => s!"need:{op.show}:{n}"
+
+def showCWarn : CWarning → String
+  | .needU op n _ => s!"need:{op.show}:{n}"
+  | .err e => e
+
+def showWarns (l : List String) : String := if l.isEmpty then "-" else "+".intercalate l
+
+def testResult (s : String) : TestResult :=
+  if s.startsWith "err" then .err s else match bits? s with
+    | some b => .ok b
+    | none => .err "err:parse"
+
+def needTab (s : String) : List (Nat × Nat) :=
+  if s == "" || s == "-" then [] else
+  (s.splitOn ",").map fun e => match e.splitOn ":" with
+    | [a, b] => (a.toNat?.getD 0, b.toNat?.getD 0)
+    | _ => (0, 0)
+
+def showFSummary (s : FSummary) (warn : String) : String :=
+  s!"center={canon s.center} lo={canon s.lo} hi={canon s.hi} conf={canon s.confidence} warn={warn} pct={hexStr (Render.pctRangeString s)}"
+
+def handleSum (l : Line) : IO Unit := do
+  let id := l.id
+  let a := l.getD "a"
+  let vals := bitsList (l.getD "vals")
+  let conf := bitsD l "conf"
+  let s : Sample F64.Bits := newSample vals { compareAlpha := 0x3FA999999999999A }
+  let res : Option (FSummary × String) :=
+    match a with
+    | "exact" => (Exact.summary s).map fun r => (r.toF, showWarns (r.warnings.map showSWarn))
+    | "nothing" =>
+      let ci : Nothing.QCI := { loOrder := (l.nat? "qlo").getD 0, hiOrder := (l.nat? "qhi").getD 0, confidence := bitsD l "qconf" }
+      (Nothing.summary s conf ci (needTab (l.getD "need"))).map fun r => (r.toF, showWarns (r.warnings.map showSWarn))
+    | _ =>
+      some (Normal.summary conf { mean := bitsD l "mean", lo := bitsD l "mlo", hi := bitsD l "mhi" }, "-")
+  match res with
+  | some (fs, w) => IO.println s!"obs {id} {showFSummary fs w}"
+  | none => IO.println s!"obs {id} panic"
+  -- specification oracle on the implementation's outputs
+  let impl : Spec.MathSpec.ImplSummary :=
+    { center := bitsD l "ic", lo := bitsD l "ilo", hi := bitsD l "ihi", conf := bitsD l "iconf",
+      warn := l.getD "iwarn" != "-", pct := unhexStr (l.getD "ipct") }
+  let v := match a with
+    | "exact" => Spec.MathSpec.judgeExact vals impl
+    | "nothing" => Spec.MathSpec.judgeNothing vals conf ((l.nat? "qlo").getD 0) ((l.nat? "qhi").getD 0) impl
+    | _ => Spec.MathSpec.judgeNormal vals conf impl
+  IO.println s!"spec {id} {v}"
+
+def comparisonOf (l : Line) : String × Comparison :=
+  let a := l.getD "a"
+  let alpha := bitsD l "alpha"
+  let s1 : Sample F64.Bits := newSample (bitsList (l.getD "v1")) { compareAlpha := alpha }
+  let s2 : Sample F64.Bits := newSample (bitsList (l.getD "v2")) { compareAlpha := 0x3FE8000000000000 }
+  let c := match a with
+    | "exact" => Exact.compare s1 s2
+    | "nothing" => Nothing.compare s1 s2 { differs := testResult (l.getD "ud"), less12 := testResult (l.getD "ul1"),
+                                            less21 := testResult (l.getD "ul2") }
+    | _ => Normal.compare s1 s2 (testResult (l.getD "wp"))
+  (a, c)
+
+def handleCmp (l : Line) : IO Unit := do
+  let id := l.id
+  let (a, c) := comparisonOf l
+  let old := bitsD l "old"
+  let new := bitsD l "new"
+  IO.println s!"obs {id} p={canon c.p} n1={c.n1} n2={c.n2} alpha={canon c.alpha} warn={showWarns (c.warnings.map showCWarn)} delta={hexStr (Render.formatDelta c old new)} str={hexStr (Render.comparisonString c)}"
+  let impl : Spec.MathSpec.ImplComparison :=
+    { p := bitsD l "ip", n1 := (l.nat? "in1").getD 0, n2 := (l.nat? "in2").getD 0, alpha := bitsD l "ialpha",
+      p21 := bitsD l "ip21", psh := bitsD l "ipsh", psc := bitsD l "ipsc",
+      delta := unhexStr (l.getD "idelta"), str := unhexStr (l.getD "istr") }
+  let v := Spec.MathSpec.judgeCompare a (bitsList (l.getD "v1")) (bitsList (l.getD "v2")) (bitsD l "alpha") old new impl
+  IO.println s!"spec {id} {v}"
+
+def handleFd (l : Line) : IO Unit := do
+  let id := l.id
+  let c : Comparison := { p := bitsD l "p", n1 := (l.nat? "n1").getD 0, n2 := (l.nat? "n2").getD 0,
+                          alpha := bitsD l "alpha", warnings := [] }
+  let old := bitsD l "old"
+  let new := bitsD l "new"
+  IO.println s!"obs {id} delta={hexStr (Render.formatDelta c old new)} str={hexStr (Render.comparisonString c)}"
+  let v := Spec.MathSpec.judgeRenderCmp c.p c.alpha c.n1 c.n2 old new (unhexStr (l.getD "idelta")) (unhexStr (l.getD "istr"))
+  IO.println s!"spec {id} {v}"
+
+def handlePr (l : Line) : IO Unit := do
+  let id := l.id
+  let s : FSummary := { center := bitsD l "c", lo := bitsD l "lo", hi := bitsD l "hi", confidence := F64.one }
+  IO.println s!"obs {id} pct={hexStr (Render.pctRangeString s)}"
+  IO.println s!"spec {id} pct={Spec.MathSpec.judgePct s.center s.lo s.hi (unhexStr (l.getD "ipct"))}"
+
+def handle (l : Line) : IO Unit := do
+  if l.kind != "case" then return
+  match l.getD "kind" with
+  | "sum" => handleSum l
+  | "cmp" => handleCmp l
+  | "fd" => handleFd l
+  | "pr" => handlePr l
+  | "tab" =>
+    IO.println s!"obs {l.id} minp={showList Nothing.uTestMinP}"
+    IO.println s!"spec {l.id} minp={Spec.MathSpec.judgeMinP Nothing.uTestMinP}"
+  | "uts" =>
+    let on := Nothing.uTestSamples (bitsD l "alpha")
+    IO.println s!"obs {l.id} need={on.1.show}:{on.2}"
+  | "ms" =>
+    let on := Nothing.medianSamples (needTab (l.getD "need"))
+    IO.println s!"obs {l.id} need={on.1.show}:{on.2}"
+  | _ => pure ()
+
+end Driver.C13
+
+def main : IO Unit := do
+  let stdin ← IO.getStdin
+  Proto.forEachLine stdin fun s => Driver.C13.handle (Proto.parseLine s)
